@@ -773,7 +773,10 @@ func c09pathAgreement(c *Ctx) {
 	lst := c.fn("R09.9", "store.(*onDiskStore).List")
 	if lst != nil {
 		ok := false
-		for _, g := range append([]*ssa.Function{lst}, lst.AnonFuncs...) {
+		for _, g := range c.withPackageHelpers(lst, "store", 1) {
+			_ = g
+		}
+		for _, g := range append(engine.WithClosuresAndHandedOut(lst), c.withPackageHelpers(lst, "store", 1)...) {
 			for _, cs := range engine.Calls(g) {
 				if sc := cs.Common().StaticCallee(); sc != nil && engine.BaseName(sc) == "InternalMessageIDFromString" {
 					ok = true
